@@ -47,6 +47,7 @@ type World struct {
 	mbn              map[*ssa.Function][]*ssa.Return
 	mbnBusy          map[*ssa.Function]bool
 	pinned           map[*ssa.Function]ssa.CallInstruction
+	condOwner        types.Type // C20: the struct that holds the condition table
 	forceTransp      map[*ssa.Function]bool
 	ifaceByMethod    map[string][]*types.Interface
 	idxSums          map[*ssa.Function]*idxSummary
